@@ -135,6 +135,8 @@ class Gamma(object):
             return True, "the {} (in bytes)".format(name)
         if c == "doc_question":
             return True, "is {} set?".format(name)
+        if c == "ellipsis":
+            return True, "the {}, its friends, etc...".format(name)
         if c == "residue":
             return True, "the {}. Defaults to".format(name)
         if c == "pk":
